@@ -454,9 +454,20 @@ def amp_ppt_consumers():
             req = [p_ for p_ in ps if p_.default is inspect.Parameter.empty and p_.kind in (p_.POSITIONAL_ONLY, p_.POSITIONAL_OR_KEYWORD)]
             if len(req) == 1 and (req[0].annotation in (bytes, "bytes") or req[0].name == "data"):
                 fns.append((name, f))
+    text_types = sorted(v for k, v in vars(P).items() if k.startswith("RT_TEXT_") and k.endswith("_ATOM") and isinstance(v, int) and "HEADER" not in k) or [0x0FA8]
+    ctx_types = [0] + sorted(v for k, v in vars(P).items() if k in ("RT_SLIDE_CONTAINER", "RT_NOTES_CONTAINER", "RT_MAIN_MASTER_CONTAINER", "RT_SLIDE_LIST_WITH_TEXT") and isinstance(v, int))
+
+    def atoms(k, tc):
+        # k text atoms with pairwise distinct content (a consumer that de-duplicates / joins / searches what it collected so far
+        # does work proportional to the number of atoms already seen), at top level (c == 0) or inside one container of type c
+        t, c = tc
+        enc = (lambda x: x.encode("utf-16-le")) if t == getattr(P, "RT_TEXT_CHARS_ATOM", -1) else (lambda x: x.encode("ascii"))
+        body = b"".join(struct.pack("<HHI", 0, t, len(d)) + d for d in (enc("t%07d" % j) for j in range(k)))
+        return body if c == 0 else struct.pack("<HHI", 0x000F, c, len(body)) + body
     worst = (False, {}, "every consumer scales linearly")
     for name, f in fns:
-        for label, build, ts in (("nested containers of one type", nested, types), ("nested containers of alternating types", mixed, [0])):
+        for label, build, ts in (("nested containers of one type", nested, types), ("nested containers of alternating types", mixed, [0]),
+                                 ("distinct text atoms (text type, enclosing container type)", atoms, [(t, c) for t in text_types[:2] for c in ctx_types])):
             for t in ts:
                 def run(data):
                     try:
@@ -469,7 +480,7 @@ def amp_ppt_consumers():
                     continue
                 ratio = b / max(a, 1e-6)
                 if ratio > 24 and b > 0.5:
-                    return True, {"function": f"ppt_extractor.{name}", "builder": f"{label} (type 0x{t:04X}), 1500 and 12000 records of 8 bytes"}, \
+                    return True, {"function": f"ppt_extractor.{name}", "builder": f"{label} ({t if isinstance(t, tuple) else hex(t)}), 1500 and 12000 records"}, \
                         f"{la} bytes took {a:.3f}s, {lb} bytes took {b:.3f}s (x{ratio:.1f} for x8 input)"
                 if b > worst[2].__len__() * 0 and ratio > 8:
                     worst = (False, {"function": name}, f"{name}: x{ratio:.1f} for x8 input ({b:.3f}s)")
